@@ -19,6 +19,11 @@ Definition local_opt (K : table) (n : nat) (r : vec) (thr : Z) : bool :=
     forallb (fun b => s0 - thr <=? scoref K U (moved r e (2 * Z.of_nat b))) (seq 0 (Z.to_nat (m + 1)))
     && forallb (fun p => s0 - thr <=? scoref K U (moved r e (2 * Z.of_nat p - 1))) (seq 0 (Z.to_nat (m + 2)))) U.
 
+(** fuel given to the model of the local search: the score of the worst departure divided by the threshold, plus
+    two - proved sufficient for the loop to terminate ([BioAlgo.bioconsert_on_terminates]) *)
+Definition fuel_for (K : table) (n : nat) (deps : list vec) : nat :=
+  Z.to_nat (fold_right Z.max 0 (map (score_vec K n) deps) / THR) + 2.
+
 Definition denseb' (v : vec) : bool := denseb v && forallb (fun x => 0 <=? x) v.
 
 (** unit level: [_improve_one_ranking] *)
@@ -26,7 +31,7 @@ Definition judge_improve (c : list (list (Z * Z * Z)) * vec * vec * Z) : nat :=
   let '(M, r0, r1, delta) := c in
   let n := length r0 in
   let K := table_of M in
-  let m := match improve_one_ranking (100 + 10 * n * n) K n r0 with
+  let m := match improve_one_ranking (fuel_for K n [r0]) K n r0 with
            | Some (r', d) => vec_eqb r' r1 && (d =? delta)
            | None => false
            end in
@@ -34,7 +39,7 @@ Definition judge_improve (c : list (list (Z * Z * Z)) * vec * vec * Z) : nat :=
               && (score_vec K n r1 =? score_vec K n r0 + delta) in
   code m spec.
 Definition show_improve (c : list (list (Z * Z * Z)) * vec * vec * Z) :=
-  let '(M, r0, _, _) := c in improve_one_ranking (100 + 10 * length r0 * length r0) (table_of M) (length r0) r0.
+  let '(M, r0, _, _) := c in improve_one_ranking (fuel_for (table_of M) (length r0) [r0]) (table_of M) (length r0) r0.
 
 (** API level *)
 Record cbio := mkBio {
@@ -50,7 +55,7 @@ Definition judge_bio (c : cbio) : nat :=
   let K := table_of (cost_matrix (b_s c) (positions U D)) in
   let deps := match b_starts c with Some st => departures_from D st | None => departures_plain D end in
   let m := list_eqb Nat.eqb (universe D) U &&
-           match bioconsert_on (100 + 10 * n * n) (b_one c) (b_s c) D deps with
+           match bioconsert_on (fuel_for K n deps) (b_one c) (b_s c) D deps with
            | Some (sc, rs) => (sc =? b_score c) && list_eqb ranking_eqb rs (b_cons c)
            | None => false
            end in
@@ -69,4 +74,4 @@ Definition judge_bio (c : cbio) : nat :=
 Definition show_bio (c : cbio) :=
   let U := b_U c in
   let deps := match b_starts c with Some st => departures_from (b_D c) st | None => departures_plain (b_D c) end in
-  (deps, bioconsert_on (100 + 10 * length U * length U) (b_one c) (b_s c) (b_D c) deps).
+  (deps, bioconsert_on (fuel_for (table_of (cost_matrix (b_s c) (positions U (b_D c)))) (length U) deps) (b_one c) (b_s c) (b_D c) deps).
